@@ -69,6 +69,29 @@ theorem rejected_add_noop (defs : List IdxDef) (ops : List Op) (o : ObjId) (w' :
       subst h1; subst this
       exact ⟨rfl, fun _ _ => rfl, fun _ => rfl⟩
 
+/-- an insertion is rejected only for a reason: `KeyError` ⇒ the object is new and one of its current keys in a unique
+index is already taken; `ValueError` ⇒ the key function of a unique index returned a list -/
+theorem rejected_add_reason (defs : List IdxDef) (ops : List Op) (o : ObjId) (w' : World) (e : Err)
+    (h : step defs (run defs ops) (.add o) = (w', some e)) :
+    o ∉ (run defs ops).tab.objs ∧
+    ((e = .keyError ∧ ∃ i k, isUnique defs i = true ∧ k ∈ keysOf defs i ((run defs ops).cur o) ∧
+        (run defs ops).tab.idx i k ≠ []) ∨
+     (e = .valueError ∧ ∃ i d, defs[i]? = some d ∧ d.kind = .unique ∧
+        ∃ ks, keyResAt ((run defs ops).cur o) i = .many ks)) := by
+  generalize run defs ops = w at h
+  simp only [step, stepAdd] at h
+  split at h
+  · cases h
+  · generalize hadd : add defs w.tab o (w.cur o) = r at h
+    obtain ⟨t, e'⟩ := r
+    cases e' with
+    | none => simp at h
+    | some e' =>
+      simp only [Prod.mk.injEq, Option.some.injEq] at h
+      obtain ⟨_, he⟩ := h
+      subst he
+      exact add_err_reason (by rw [hadd])
+
 /-- a re-index that raises keeps the stored objects, `_object_ids` and the content of every index list (the object
 is moved to the end of its lists); the table still describes the last accepted indexing of the object -/
 theorem rejected_update_keeps (defs : List IdxDef) (ops : List Op) (o : ObjId) (w' : World) (e : Err)
@@ -280,5 +303,7 @@ example : (step exDefs (run exDefs (exOps ++ [.setAttrs 3 [.one 7, .one 8, .attr
 example : (step exDefs (run exDefs exOps) (.update 2)).2 = some .valueError := by decide
 example : (step exDefs (run exDefs [.setAttrs 1 [.none, .many [1], .none]]) (.add 1)).2 = some .valueError := by decide
 example : isUnique exDefs 1 = true := by decide
+/-- the reason `rejected_add_reason` names, in the rejected insertion above: unique key 5 of index 1 is taken -/
+example : 5 ∈ keysOf exDefs 1 ((run exDefs (exOps.take 3)).cur 2) ∧ (run exDefs (exOps.take 3)).tab.idx 1 5 = [1] := by decide
 
 end Sdc.C11
